@@ -1415,6 +1415,14 @@ pub fn gen_dev_listen(suite: &str, region: &str, rng: &mut Rng) -> String {
         d.build().unwrap()
     };
     for round in 0..(1 + rng.below(3)) {
+        // the application switches Class C off and on again between calls now and then
+        if rng.chance(1, 5) {
+            h.ev("classc 0");
+            if joined {
+                h.asend(7, false, &[0x77], &[]);
+            }
+            h.ev("classc 1");
+        }
         if joined && (round > 0 || rng.chance(2, 3)) {
             h.asend(1 + rng.below(100) as u8, rng.chance(1, 4), &[round as u8], &[]);
         }
